@@ -10,13 +10,20 @@ import (
 	"fmt"
 	"math"
 	"strings"
+	"sync"
 
 	comet "github.com/wizenheimer/comet"
 	"verifharness/internal/core"
 )
 
 type trainCmd struct {
-	Op      string     `json:"op"` // kmeans | itrain | iadd | isearch | qfull | qhalf | qint8
+	Op      string     `json:"op"` // kmeans | itrain | iadd | isearch | qfull | qhalf | qint8 | qmulti | qnew | pqparams
+	Via     string     `json:"via,omitempty"`   // factory (NewQuantizer) | direct (struct literal)
+	Count   int        `json:"count,omitempty"` // qmulti: number of quantizers of the same kind
+	Mode    string     `json:"mode,omitempty"`  // qmulti: train | set (SetAbsMax)
+	Set     uint32     `json:"set,omitempty"`   // qmulti: SetAbsMax argument (float32 bits)
+	Vecs2   [][]uint32 `json:"vecs2,omitempty"` // qmulti: training data of the second quantizer
+	Kind    string     `json:"kind,omitempty"`  // qnew: quantizer type string
 	Fn      string     `json:"fn,omitempty"`
 	Metric  string     `json:"metric,omitempty"`
 	K       int        `json:"k,omitempty"`
@@ -261,6 +268,36 @@ func genIndexCmds(r *core.Rand, tier string) []trainCmd {
 	vs, _ := genTrainSet(r, max(n, 1), dim)
 	vs = vs[:n]
 	cmds := []trainCmd{{Op: "itrain", Typ: typ, Metric: metric, P1: nlist, P2: m, P3: nbits, Vecs: bits2(vs)}}
+	// re-train the same index on other data (mostly fewer vectors): training is a function of
+	// its argument, so it must then equal a fresh index trained on the second set only
+	for r.Chance(0.35) {
+		n2 := r.Range(0, n)
+		if r.Chance(0.7) && n > 1 {
+			n2 = r.Range(n/2, n-1)
+		}
+		if r.Chance(0.15) {
+			n2 = n + r.Range(0, 10)
+		}
+		var vs2 [][]float32
+		if r.Bool() || len(vs) == 0 {
+			vs2, _ = genTrainSet(r, max(n2, 1), dim)
+			vs2 = vs2[:n2]
+		} else { // a prefix / suffix of the first set
+			src := vs
+			for len(src) < n2 {
+				src = append(src, vs...)
+			}
+			if len(src) == 0 || n2 == 0 {
+				vs2 = nil
+			} else if r.Bool() {
+				vs2 = src[:n2]
+			} else {
+				vs2 = src[len(src)-n2:]
+			}
+		}
+		cmds = append(cmds, trainCmd{Op: "iretrain", Typ: typ, Metric: metric, P1: nlist, P2: m, P3: nbits, Vecs: bits2(vs2)})
+		vs, n = vs2, len(vs2)
+	}
 	// add the training vectors (and a few fresh ones) to both copies, then query
 	id := uint32(1)
 	for _, v := range vs {
@@ -365,7 +402,66 @@ func genInt8Cmd(r *core.Rand) trainCmd {
 			}
 		}
 	}
-	return trainCmd{Op: "qint8", Vecs: bits2(tv), Vec: core.Bits(v)}
+	return trainCmd{Op: "qint8", Via: genVia(r), Vecs: bits2(tv), Vec: core.Bits(v)}
+}
+
+func genVia(r *core.Rand) string {
+	if r.Chance(0.6) {
+		return "factory"
+	}
+	return "direct"
+}
+
+// several int8 quantizers of the same kind in one process: one is trained (or SetAbsMax),
+// the others must stay untrained and refuse; then a second one is trained with a
+// different range and both must reconstruct within their OWN absMax/254.
+func genMultiCmd(r *core.Rand) trainCmd {
+	dim := r.Range(1, 12)
+	mk := func(scale float64, zero bool) [][]float32 {
+		tv := make([][]float32, r.Range(1, 4))
+		for i := range tv {
+			tv[i] = f32s(gauss(r, dim, scale))
+			if zero {
+				for d := range tv[i] {
+					tv[i][d] = 0
+				}
+			}
+		}
+		return tv
+	}
+	sa := math.Pow(10, -2+4*r.Float64())
+	sb := sa * math.Pow(10, []float64{-2, -1, 1, 2, 3}[r.Intn(5)]) // a clearly different range
+	tvA, tvB := mk(sa, r.Chance(0.05)), mk(sb, r.Chance(0.05))
+	cmd := trainCmd{Op: "qmulti", Via: genVia(r), Count: r.Range(2, 3), Mode: "train", Vecs: bits2(tvA), Vecs2: bits2(tvB)}
+	if r.Chance(0.3) {
+		cmd.Mode = "set"
+		switch r.Pick(6, 1, 1) {
+		case 0:
+			cmd.Set = math.Float32bits(float32(sa * (0.5 + r.Float64())))
+		case 1:
+			cmd.Set = 0
+		default:
+			cmd.Set = math.Float32bits(float32(-sa))
+		}
+	}
+	// probe: inside A's range, inside B's range, the ends, half-way points of either
+	v := make([]float32, dim)
+	for i := range v {
+		s := sa
+		if r.Bool() {
+			s = sb
+		}
+		switch r.Pick(4, 1, 2) {
+		case 0:
+			v[i] = float32((2*r.Float64() - 1) * s)
+		case 1:
+			v[i] = float32(s * float64(1-2*r.Intn(2)))
+		default:
+			v[i] = float32((float64(r.Range(-127, 126)) + 0.5) / 127 * s)
+		}
+	}
+	cmd.Vec = core.Bits(v)
+	return cmd
 }
 
 func genTrain(r *core.Rand, tier string) *trainCase {
@@ -381,17 +477,56 @@ func genTrain(r *core.Rand, tier string) *trainCase {
 	default:
 		c := &trainCase{Theme: "quant"}
 		for j := r.Range(3, 10); j > 0; j-- {
-			switch r.Pick(1, 4, 4) {
+			switch r.Pick(2, 6, 6, 5, 1, 1) {
 			case 0:
-				c.Cmds = append(c.Cmds, trainCmd{Op: "qfull", Vec: core.Bits(f32s(gauss(r, r.Range(1, 16), 1)))})
+				c.Cmds = append(c.Cmds, trainCmd{Op: "qfull", Via: genVia(r), Vec: core.Bits(f32s(gauss(r, r.Range(1, 16), 1)))})
 			case 1:
-				c.Cmds = append(c.Cmds, trainCmd{Op: "qhalf", Vec: core.Bits(genHalfVec(r))})
-			default:
+				c.Cmds = append(c.Cmds, trainCmd{Op: "qhalf", Via: genVia(r), Vec: core.Bits(genHalfVec(r))})
+			case 2:
 				c.Cmds = append(c.Cmds, genInt8Cmd(r))
+			case 3:
+				c.Cmds = append(c.Cmds, genMultiCmd(r))
+			case 4:
+				c.Cmds = append(c.Cmds, trainCmd{Op: "qnew", Kind: []string{"float32", "float16", "int8", "float64", "", "INT8", "int4", "bfloat16"}[r.Intn(8)]})
+			default:
+				d := []int{r.Range(-16, 0), r.Range(1, 64), r.Range(65, 2048), 8 * r.Range(1, 64), 33 * r.Range(1, 5), 7, 1}[r.Intn(7)]
+				c.Cmds = append(c.Cmds, trainCmd{Op: "pqparams", K: d})
 			}
 		}
 		return c
 	}
+}
+
+var quantMu sync.Mutex
+
+func viaTok(v string) string {
+	if v == "factory" {
+		return "factory"
+	}
+	return "direct"
+}
+
+// newQ obtains a quantizer through the public factory or through the struct literal.
+func newQ(via string, kind comet.QuantizerType) (comet.Quantizer, error) {
+	if via == "factory" {
+		return comet.NewQuantizer(kind)
+	}
+	switch kind {
+	case comet.FullPrecision:
+		return &comet.FullPrecisionQuantizer{}, nil
+	case comet.HalfPrecision:
+		return &comet.HalfPrecisionQuantizer{}, nil
+	default:
+		return &comet.Int8Quantizer{}, nil
+	}
+}
+
+func int8sStr(q []int8) string {
+	qi := make([]int, len(q))
+	for i, x := range q {
+		qi[i] = int(x)
+	}
+	return intsStr(qi)
 }
 
 type trainedIndex interface {
@@ -424,14 +559,14 @@ func execTrain(c *trainCase) []string {
 	lines := []string{"begin train " + c.Theme}
 	var ixA, ixB trainedIndex
 	added := 0
-	for _, cmd := range c.Cmds {
+	step := func(cmd trainCmd) {
 		switch cmd.Op {
 		case "kmeans":
 			vs := from2(cmd.Vecs)
 			dist, err := comet.NewDistance(comet.DistanceKind(cmd.Metric))
 			if err != nil {
 				lines = append(lines, "op panic NewDistance "+err.Error())
-				continue
+				return
 			}
 			run := func(in [][]float32) ([][]float32, []int) {
 				if cmd.Fn == "sub" {
@@ -448,7 +583,7 @@ func execTrain(c *trainCase) []string {
 			head := fmt.Sprintf("op kmeans %s %s %d %d %s =>", cmd.Fn, cmd.Metric, cmd.K, cmd.MaxIter, vecsHex(vs))
 			if c1 == nil && a1 == nil {
 				lines = append(lines, fmt.Sprintf("%s nil %s %s", head, b01(det), b01(unch)))
-				continue
+				return
 			}
 			d := dist
 			if cmd.Fn == "sub" {
@@ -459,7 +594,7 @@ func execTrain(c *trainCase) []string {
 				nidx[i] = comet.FindNearestCentroidIndex(v, c1, d)
 			}
 			lines = append(lines, fmt.Sprintf("%s %s %s %s %s %s", head, vecsHex(c1), intsStr(a1), intsStr(nidx), b01(det), b01(unch)))
-		case "itrain":
+		case "itrain", "iretrain":
 			vs := from2(cmd.Vecs)
 			mk := func() (trainedIndex, error) {
 				switch cmd.Typ {
@@ -472,11 +607,19 @@ func execTrain(c *trainCase) []string {
 				}
 			}
 			a, errA := mk()
+			if cmd.Op == "iretrain" {
+				// the first copy is the index of this case, trained before on other data; the
+				// second copy is a fresh index that sees only the new data
+				if ixA == nil {
+					return
+				}
+				a, errA = ixA, nil
+			}
 			b, errB := mk()
-			head := fmt.Sprintf("op itrain %s %s %d %d %d %s =>", cmd.Typ, cmd.Metric, cmd.P1, cmd.P2, cmd.P3, vecsHex(vs))
+			head := fmt.Sprintf("op %s %s %s %d %d %d %s =>", cmd.Op, cmd.Typ, cmd.Metric, cmd.P1, cmd.P2, cmd.P3, vecsHex(vs))
 			if errA != nil || errB != nil {
 				lines = append(lines, "op panic constructor "+fmt.Sprint(errA, errB))
-				continue
+				return
 			}
 			inA, inB := from2(cmd.Vecs), from2(cmd.Vecs)
 			eA := a.Train(nodesOf(inA))
@@ -485,17 +628,17 @@ func execTrain(c *trainCase) []string {
 			ixA, ixB, added = a, b, 0
 			if eA != nil || eB != nil {
 				lines = append(lines, fmt.Sprintf("%s err %s %s", head, b01(eA != nil && eB != nil), b01(unch)))
-				if eA != nil {
-					ixA, ixB = nil, nil
+				if eA != nil || cmd.Op == "iretrain" {
+					ixA, ixB = nil, nil // (a failed re-training keeps the old training: nothing to compare with)
 				}
-				continue
+				return
 			}
 			csA, cbA := exportState(a)
 			csB, cbB := exportState(b)
 			lines = append(lines, fmt.Sprintf("%s ok %s %s %s %s", head, vecsHex(csA), vecsHex(cbA), b01(same2(csA, csB) && same2(cbA, cbB)), b01(unch)))
 		case "iadd":
 			if ixA == nil {
-				continue
+				return
 			}
 			v := core.FromBits(cmd.Vec)
 			eA := ixA.Add(*comet.NewVectorNodeWithID(cmd.ID, clone32(v)))
@@ -506,7 +649,7 @@ func execTrain(c *trainCase) []string {
 			lines = append(lines, fmt.Sprintf("op iadd %d %s => %s %s", cmd.ID, core.VecHex(v), vecErr(eA), vecErr(eB)))
 		case "isearch":
 			if ixA == nil {
-				continue
+				return
 			}
 			q := core.FromBits(cmd.Vec)
 			run := func(ix trainedIndex) string {
@@ -520,35 +663,48 @@ func execTrain(c *trainCase) []string {
 		case "qfull":
 			v0 := core.FromBits(cmd.Vec)
 			v := clone32(v0)
-			qz, _ := comet.NewQuantizer(comet.FullPrecision)
+			qz, err := newQ(cmd.Via, comet.FullPrecision)
+			if err != nil {
+				lines = append(lines, "op panic qfull "+err.Error())
+				return
+			}
+			qz.Train([][]float32{v}) // documented no-op
 			st, err := qz.Quantize(v)
 			if err != nil {
 				lines = append(lines, "op panic qfull "+err.Error())
-				continue
+				return
 			}
 			q := st.([]float32)
 			d, err := qz.Dequantize(st)
 			if err != nil {
 				lines = append(lines, "op panic qfull "+err.Error())
-				continue
+				return
 			}
+			_, werr := qz.Dequantize([]int8{1}) // wrong stored type must be refused
 			fresh := len(v) == 0 || (&q[0] != &v[0] && &d[0] != &q[0])
-			lines = append(lines, fmt.Sprintf("op qfull %s => %s %s %s %s", core.VecHex(v0), core.VecHex(q), core.VecHex(d), b01(sameBits(v, v0)), b01(fresh)))
+			lines = append(lines, fmt.Sprintf("op qfull %s %s => %s %s %s %s %s %s %s", viaTok(cmd.Via), core.VecHex(v0), core.VecHex(q), core.VecHex(d),
+				b01(sameBits(v, v0)), b01(fresh), string(qz.Type()), b01(qz.IsTrained()), b01(werr != nil)))
 		case "qhalf":
 			v0 := core.FromBits(cmd.Vec)
 			v := clone32(v0)
-			qz, _ := comet.NewQuantizer(comet.HalfPrecision)
+			qz, err := newQ(cmd.Via, comet.HalfPrecision)
+			if err != nil {
+				lines = append(lines, "op panic qhalf "+err.Error())
+				return
+			}
+			qz.Train([][]float32{v}) // documented no-op
 			st, err := qz.Quantize(v)
 			if err != nil {
 				lines = append(lines, "op panic qhalf "+err.Error())
-				continue
+				return
 			}
 			q := st.([]uint16)
 			d, err := qz.Dequantize(st)
 			if err != nil {
 				lines = append(lines, "op panic qhalf "+err.Error())
-				continue
+				return
 			}
+			_, werr := qz.Dequantize([]float32{1})
 			hs := make([]string, len(q))
 			for i, x := range q {
 				hs[i] = fmt.Sprintf("%04x", x)
@@ -557,39 +713,154 @@ func execTrain(c *trainCase) []string {
 			if len(hs) > 0 {
 				qs = strings.Join(hs, ",")
 			}
-			lines = append(lines, fmt.Sprintf("op qhalf %s => %s %s %s", core.VecHex(v0), qs, core.VecHex(d), b01(sameBits(v, v0))))
+			lines = append(lines, fmt.Sprintf("op qhalf %s %s => %s %s %s %s %s %s", viaTok(cmd.Via), core.VecHex(v0), qs, core.VecHex(d), b01(sameBits(v, v0)),
+				string(qz.Type()), b01(qz.IsTrained()), b01(werr != nil)))
 		case "qint8":
 			tv := from2(cmd.Vecs)
 			v0 := core.FromBits(cmd.Vec)
 			v := clone32(v0)
-			qz := &comet.Int8Quantizer{}
+			qq, err := newQ(cmd.Via, comet.Int8Precision)
+			qz, isInt8 := qq.(*comet.Int8Quantizer)
+			if err != nil || !isInt8 {
+				lines = append(lines, fmt.Sprintf("op panic qint8 constructor %v %T", err, qq))
+				return
+			}
 			tin := from2(cmd.Vecs)
 			qz.Train(tin)
 			unch := same2(tin, tv)
-			head := fmt.Sprintf("op qint8 %s %s =>", vecsHex(tv), core.VecHex(v0))
+			head := fmt.Sprintf("op qint8 %s %s %s =>", viaTok(cmd.Via), vecsHex(tv), core.VecHex(v0))
 			st, err := qz.Quantize(v)
 			unch = unch && sameBits(v, v0)
 			if err != nil {
 				_, derr := qz.Dequantize(make([]int8, len(v)))
 				if qz.IsTrained() {
 					lines = append(lines, "op panic qint8 error although trained: "+err.Error())
-					continue
+					return
 				}
-				lines = append(lines, fmt.Sprintf("%s untrained %s %s %s", head, core.Hex32(qz.GetAbsMax()), b01(derr != nil), b01(unch)))
-				continue
+				lines = append(lines, fmt.Sprintf("%s untrained %s %s %s %s", head, core.Hex32(qz.GetAbsMax()), b01(derr != nil), b01(unch), string(qz.Type())))
+				return
 			}
 			q := st.([]int8)
 			d, derr := qz.Dequantize(st)
 			if derr != nil {
 				lines = append(lines, "op panic qint8 dequantize "+derr.Error())
-				continue
+				return
 			}
-			qi := make([]int, len(q))
-			for i, x := range q {
-				qi[i] = int(x)
+			lines = append(lines, fmt.Sprintf("%s %s %s %s %s %s", head, core.Hex32(qz.GetAbsMax()), int8sStr(q), core.VecHex(d), b01(unch), string(qz.Type())))
+		case "qmulti":
+			tvA, tvB := from2(cmd.Vecs), from2(cmd.Vecs2)
+			v0 := core.FromBits(cmd.Vec)
+			n := cmd.Count
+			if n < 2 {
+				n = 2
 			}
-			lines = append(lines, fmt.Sprintf("%s %s %s %s %s", head, core.Hex32(qz.GetAbsMax()), intsStr(qi), core.VecHex(d), b01(unch)))
+			qs := make([]*comet.Int8Quantizer, n)
+			for i := range qs {
+				qq, err := newQ(cmd.Via, comet.Int8Precision)
+				z, ok := qq.(*comet.Int8Quantizer)
+				if err != nil || !ok {
+					lines = append(lines, fmt.Sprintf("op panic qmulti constructor %v %T", err, qq))
+					return
+				}
+				qs[i] = z
+			}
+			distinct := true
+			for i := range qs {
+				for j := 0; j < i; j++ {
+					if qs[i] == qs[j] {
+						distinct = false
+					}
+				}
+			}
+			// "t<trained><quantize refuses><dequantize refuses>"
+			probe := func(z *comet.Int8Quantizer) string {
+				_, qe := z.Quantize(clone32(v0))
+				_, de := z.Dequantize(make([]int8, len(v0)))
+				return b01(z.IsTrained()) + b01(qe != nil) + b01(de != nil)
+			}
+			amaxes := func() string {
+				out := make([]float32, n)
+				for i, z := range qs {
+					out[i] = z.GetAbsMax()
+				}
+				return hexList(out)
+			}
+			types := make([]string, n)
+			pre := make([]string, n)
+			for i, z := range qs {
+				types[i] = string(z.Type())
+				pre[i] = probe(z)
+			}
+			inA := from2(cmd.Vecs)
+			arg := vecsHex(tvA)
+			if cmd.Mode == "set" {
+				qs[0].SetAbsMax(math.Float32frombits(cmd.Set))
+				arg = core.Hex32(math.Float32frombits(cmd.Set))
+			} else {
+				qs[0].Train(inA)
+			}
+			amax1 := amaxes()
+			mid := make([]string, 0, n)
+			for _, z := range qs[1:] {
+				mid = append(mid, probe(z))
+			}
+			inB := from2(cmd.Vecs2)
+			qs[1].Train(inB)
+			amax2 := amaxes()
+			use := func(z *comet.Int8Quantizer) string {
+				st, err := z.Quantize(clone32(v0))
+				if err != nil {
+					return "untrained"
+				}
+				d, err := z.Dequantize(st)
+				if err != nil {
+					return "untrained"
+				}
+				return int8sStr(st.([]int8)) + ";" + core.VecHex(d)
+			}
+			r0, r1 := use(qs[0]), use(qs[1])
+			last := "-"
+			if n > 2 {
+				last = probe(qs[2])
+			}
+			unch := same2(inA, tvA) && same2(inB, tvB)
+			// last independence probe, whatever the training data were: SetAbsMax(3.25) on the first only
+			qs[0].SetAbsMax(3.25)
+			amax3 := amaxes()
+			lines = append(lines, fmt.Sprintf("op qmulti %s %d %s %s %s %s => %s %s %s | %s %s | %s | %s | %s | %s %s | %s", viaTok(cmd.Via), n, cmd.Mode, arg, vecsHex(tvB), core.VecHex(v0),
+				b01(distinct), strings.Join(types, ","), strings.Join(pre, ","), amax1, strings.Join(mid, ","), amax2, r0, r1, last, b01(unch), amax3))
+		case "qnew":
+			qq, err := comet.NewQuantizer(comet.QuantizerType(cmd.Kind))
+			k := cmd.Kind
+			if k == "" {
+				k = "-"
+			}
+			if err != nil {
+				lines = append(lines, fmt.Sprintf("op qnew %s => err %s", k, b01(qq == nil)))
+				return
+			}
+			lines = append(lines, fmt.Sprintf("op qnew %s => ok %s", k, string(qq.Type())))
+		case "pqparams":
+			m, nb := comet.CalculatePQParams(cmd.K)
+			ctor := "err"
+			if cmd.K > 0 {
+				if _, err := comet.NewPQIndex(cmd.K, comet.Euclidean, m, nb); err == nil {
+					ctor = "ok"
+				}
+			}
+			lines = append(lines, fmt.Sprintf("op pqparams %d => %d %d %s", cmd.K, m, nb, ctor))
 		}
+	}
+	for _, cmd := range c.Cmds {
+		func() {
+			// every op that goes through the NewQuantizer factory runs alone: if the factory handed out
+			// shared instances, concurrent workers of this process would make a failing case unreplayable
+			if cmd.Via == "factory" || cmd.Op == "qnew" {
+				quantMu.Lock()
+				defer quantMu.Unlock()
+			}
+			step(cmd)
+		}()
 	}
 	return append(lines, "end")
 }
@@ -637,7 +908,7 @@ func nonTrivialTrain(lines, replies []string) bool {
 func init() {
 	register(&core.Typed[trainCase]{
 		StreamName: "train", Prop: "C20",
-		RuleText: "three themes — kmeans: 0..500 training vectors in 1..32 dims (blobs, Gaussian, duplicates, all-equal, collinear, integer lattice, axis; unit vectors for cosine), k in Z (k<=0, small, =n, >n), maxIter in {-1,0,1,2,3,5,20,50}, KMeans with 3 metrics and KMeansSubspace; index: IVF / PQ / IVFPQ trained twice on the same data (also too few vectors), same adds and queries (k<=0, small, huge; nprobe 0..all) on both copies; quant: float32 copy, float16 over normal range / exact ties / subnormals / underflow / overflow boundary, int8 with training data, range ends, half-way points, out-of-range values, untrained. Non-trivial: a k-means run with n>=2 and >=2 centroids, or a twice-trained search with a non-empty answer, or a float16 op with a normal-range component, or an int8 op with an in-range component; distinct = distinct request streams",
+		RuleText: "three themes — kmeans: 0..500 training vectors in 1..32 dims (blobs, Gaussian, duplicates, all-equal, collinear, integer lattice, axis; unit vectors for cosine), k in Z (k<=0, small, =n, >n), maxIter in {-1,0,1,2,3,5,20,50}, KMeans with 3 metrics and KMeansSubspace; index: IVF / PQ / IVFPQ trained twice on the same data (also too few vectors), in 35% of the cases re-trained on other data (mostly fewer vectors) and compared with a fresh index that saw only the second set, same adds and queries (k<=0, small, huge; nprobe 0..all) on both copies; quant: quantizers obtained through NewQuantizer (60%) or the struct literals; float32 copy, float16 over normal range / exact ties / subnormals / underflow / overflow boundary, int8 with training data, range ends, half-way points, out-of-range values, untrained; 2-3 int8 quantizers in one process (one trained or SetAbsMax first, the others must stay untrained and refuse, a second trained with a range 0.01x..1000x different, both used on the same probe); NewQuantizer on known and unknown kinds; Type / IsTrained / no-op Train / wrong stored type; CalculatePQParams on dims -16..2048. Non-trivial: a k-means run with n>=2 and >=2 centroids, or a twice-trained search with a non-empty answer, or a float16 op with a normal-range component, or an int8 op with an in-range component; distinct = distinct request streams",
 		NCases: func(tier string) int {
 			if tier == "thorough" {
 				return 25000
